@@ -95,10 +95,12 @@ fn c01(quick: bool) -> PropRun {
 pub const FATES_BASIC_PLUS: &[Fate] = &[Fate::Deliver, Fate::Drop, Fate::Dup, Fate::DupLate, Fate::Delay1, Fate::Delay3];
 
 // ------------------------------------------------------------------------------------------------
+pub const T_LIVE_ROUNDS: usize = 15_000;
+
 fn env_live(dev_rounds: usize) -> LwEnv {
-    // fair phase: 20 ms cadence for 10 s, then 250 ms cadence up to T_live = 300 s of virtual time
-    LwEnv { fates: FATES_BASIC_PLUS, deltas: &[20, 0, 2000, 10_000], dev_rounds, dev_start: 0, max_rounds: dev_rounds + 500 + 1160, skip_choice: false, flush_choice: false,
-            blackouts: &[], stop_when_idle: true, fair_delta: 20, slow_after: dev_rounds + 500, slow_delta: 250, fuel: 2_000_000 }
+    // fair phase: constant 20 ms cadence up to T_live = 300 s of virtual time (executions stop as soon as both sides are idle)
+    LwEnv { fates: FATES_BASIC_PLUS, deltas: &[20, 0, 2000, 10_000], dev_rounds, dev_start: 0, max_rounds: dev_rounds + T_LIVE_ROUNDS, skip_choice: false, flush_choice: false,
+            blackouts: &[], stop_when_idle: true, fair_delta: 20, slow_after: usize::MAX, slow_delta: 250, fuel: 2_000_000 }
 }
 
 fn mixed_scripts() -> Vec<(&'static str, Vec<Op>)> {
@@ -135,7 +137,7 @@ fn c02(quick: bool) -> PropRun {
     }
     PropRun { level: "model_checking", scenarios: scs, summary: lw_summary(
         "fault prefix (deviations in the first dev_rounds rounds) followed by a fair network; safety on every round, bounded liveness at the horizon T_live = 300 s of virtual time (fixed a priori from protocol constants, never calibrated on the implementation)",
-        json!({"d": d, "dev_rounds": dev, "T_live_ms": 300_000, "fair_cadence_ms": "20 (first 10 s) then 250", "blackouts": "one or both directions, 3..3000 rounds, at every round of the prefix"}),
+        json!({"d": d, "dev_rounds": dev, "T_live_ms": 300_000, "fair_cadence_ms": 20, "blackouts": "one or both directions, 3..3000 rounds, at every round of the prefix"}),
         &[A_LW[0], A_LW[1], A_LW[3], "bounded liveness: a change that slows recovery but stays inside T_live is not detected; a permanent stall is"]) }
 }
 
@@ -149,8 +151,8 @@ fn c05(quick: bool) -> PropRun {
     let sizes: &[usize] = &[0, 40, 2000];
     let scripts = scripts_upto(n, &[0, 1], &MODES, sizes, &[0]);
     let ideal = |lat: usize, dev: usize| -> (LwEnv, usize) {
-        (LwEnv { fates: FATES_NONE, deltas: &[20, 0, 1, 150, 2000], dev_rounds: dev, dev_start: 0, max_rounds: dev + 500 + 1160, skip_choice: true, flush_choice: true, blackouts: &[],
-                 stop_when_idle: true, fair_delta: 20, slow_after: dev + 500, slow_delta: 250, fuel: 2_000_000 }, lat)
+        (LwEnv { fates: FATES_NONE, deltas: &[20, 0, 1, 150, 2000], dev_rounds: dev, dev_start: 0, max_rounds: dev + T_LIVE_ROUNDS, skip_choice: true, flush_choice: true, blackouts: &[],
+                 stop_when_idle: true, fair_delta: 20, slow_after: usize::MAX, slow_delta: 250, fuel: 2_000_000 }, lat)
     };
     for (ci, cfg0) in grid.iter().enumerate() {
         for lat in [1usize, 3] {
